@@ -284,37 +284,10 @@ theorem converges_false_without_F15 : ¬ C16_converges_full true false := by
   obtain ⟨s, hr, hq, hn⟩ := not_in_sync_of_endsWith hc ("t", "") (by simp)
   exact hn (h _ s hr hq)
 
-/-! ## pre-creation -/
+/-! ## pre-creation
 
-/-- `GetTopic` on a new topic creates, before `t.Start()` (tie `getTopic_precreate_before_start`), exactly the
-non-`#ephemeral` channels returned by the lookupds whose HTTP query *succeeded* — the union over the reachable
-ones, whatever happened to the others (`none` = down / refused / timeout / garbage). Nothing a reachable lookupd
-knows is missed because another lookupd failed (tie `getTopic_loop_not_guarded_by_err`), nothing is invented.
-(A message published meanwhile waits in the topic queue until `Start`, so it reaches all of them.) -/
-theorem precreate_exact (answers : List (Option (List String))) (c : String) :
-    c ∈ precreate answers ↔ (∃ a, some a ∈ answers ∧ c ∈ a) ∧ c.endsWith "#ephemeral" = false := by
-  simp [precreate, List.mem_filter, List.mem_eraseDups, List.mem_flatten, List.mem_filterMap]
-
-/-- a failing lookupd never removes a channel from the result: adding failed queries (anywhere) changes nothing -/
-theorem precreate_ignores_failures (answers : List (Option (List String))) (c : String) (pre post : Nat) :
-    c ∈ precreate (List.replicate pre none ++ answers ++ List.replicate post none) ↔ c ∈ precreate answers := by
-  simp only [precreate_exact]
-  constructor
-  · rintro ⟨⟨a, ha, hc⟩, he⟩
-    refine ⟨⟨a, ?_, hc⟩, he⟩
-    simp only [List.mem_append, List.mem_replicate] at ha
-    rcases ha with (⟨_, h⟩ | h) | ⟨_, h⟩
-    · simp at h
-    · exact h
-    · simp at h
-  · rintro ⟨⟨a, ha, hc⟩, he⟩
-    exact ⟨⟨a, by simp [ha], hc⟩, he⟩
-
-/-- when every query fails nothing is pre-created (the topic starts empty, as the code logs) -/
-theorem precreate_all_failed (n : Nat) : precreate (List.replicate n none) = [] := by
-  induction n with
-  | zero => rfl
-  | succ k ih => simp [precreate, List.replicate_succ]
+The theorems about `GetTopic`'s channel pre-creation are in `Nsq.Props.C16More` (audit round 7: the set of lookupds
+that are asked at all — `Lookupd.identified` —, name validation, command injection). -/
 
 /-! ## non-vacuity -/
 
@@ -328,6 +301,5 @@ example : endsWith (run State.init goodSchedule) [("t", ""), ("t", "c")] [("t", 
 
 example : readResponse true 1024 [0, 0, 0, 2, 79, 75] = .ok [79, 75] := by decide
 example : readResponse true 1 [0, 0, 0, 2, 79, 75] = .err := by decide
-example : ∃ a, some a ∈ [none, some ["a", "b"], none, some ["b"]] ∧ "a" ∈ a := ⟨["a", "b"], by simp, by simp⟩
 
 end Nsq.Props.C16
